@@ -1,16 +1,19 @@
 #!/bin/bash
 # usage: tools/make_regress.sh <seeded-id> [seed]   e.g. tools/make_regress.sh C17b 2
-# Applies /verif/seeded/<id>/patch.diff to /repo, runs the property's quick check with its output in a scratch directory,
-# restores /repo, and copies the (at most two smallest) shrunk replays to /verif/regress/<property>/<id>__<hash>.json.
-# These replays are cases on which the unchanged tree holds the property and the seeded change breaks it; `check` replays
-# them on every run (the seconds-long regression tier).
+# Applies /verif/seeded/<id>/patch.diff in a scratch worktree of /repo (/tmp/wt/mut, created if missing; /repo itself is not
+# touched), runs the property's quick check against that tree with its output in a scratch directory, and copies the (at most
+# two smallest) shrunk replays to /verif/regress/<property>/<id>__<hash>.json. These replays are cases on which the unchanged
+# tree holds the property and the seeded change breaks it; `check` replays them on every run (the seconds-long regression tier).
+# An optional third argument names another property whose check is to be used (a change can break several properties).
 set -u
 SID=$1; SEED=${2:-1}
-PROP=$(python3 -c "import json;print(json.load(open('/verif/seeded/$SID/meta.json'))['property'])")
+PROP=${3:-$(python3 -c "import json;print(json.load(open('/verif/seeded/$SID/meta.json'))['property'])")}
+W=/tmp/wt/mut
+[ -d $W ] || git -C /repo worktree add --detach $W HEAD -q
+git -C $W checkout -q -- . && git -C $W apply /verif/seeded/$SID/patch.diff || { echo "$SID: patch does not apply"; exit 3; }
 OUT=/tmp/vp_reg/$SID; rm -rf $OUT; mkdir -p $OUT
-cd /repo && git apply /verif/seeded/$SID/patch.diff || { echo "$SID: patch does not apply"; exit 3; }
-trap 'cd /repo && git checkout -- .' EXIT
-cd /verif && VP_OUT_DIR=$OUT ./check $PROP --tier quick --seed $SEED > $OUT/log 2>&1
+cd /verif && VP_REPO_SRC=$W/src VP_OUT_DIR=$OUT ./check $PROP --tier quick --seed $SEED > $OUT/log 2>&1
 echo "$SID $PROP exit=$? $(grep -c '^VIOLATION' $OUT/log) violations"
+git -C $W checkout -q -- .
 mkdir -p /verif/regress/$PROP
 ls -S -r $OUT/replays/$PROP/*.json 2>/dev/null | head -2 | while read f; do cp $f /verif/regress/$PROP/${SID}__$(basename $f); done
